@@ -176,7 +176,7 @@ def sample(c):
 
 
 def evaluate_env(env, c):
-    return evaluate(env.driver("ts-asan"), c)
+    return evaluate(env.driver(c.get("variant", "ts-asan")), c)
 
 
 def _cfg(opts, kind="fixed"):
@@ -204,9 +204,10 @@ def main():
     ctx.assumptions = ["librecorder.so stands in for libc's execv/execve (it is what RTLD_NEXT resolves to)",
                        "pointer identity of the forwarded vectors is not required, only deep equality and an untouched caller",
                        "real-success cases exec /verif/build/argdump with vectors small enough for the kernel (E2BIG excluded)"]
-    b = ctx.run.build("ts-asan")
+    b, bn = ctx.run.build_many(["ts-asan", "nts-asan"])
     nw, per = (4, 800) if ctx.quick else (16, 6500)
-    pbt.run(ctx, {"ts-asan": b}, strategy, evaluate_env, classify, nw, per, sample=sample, fixed_cases=FIXED)
+    pbt.run(ctx, {"ts-asan": b, "nts-asan": bn}, strategy, evaluate_env, classify, nw, per, sample=sample, fixed_cases=FIXED,
+            variants=["ts-asan", "ts-asan", "nts-asan"])
     ctx.finish()
 
 
